@@ -1717,9 +1717,19 @@ func (e *Enc) classifyWrite(fn *ssa.Function, in ssa.Instruction, k string, w *w
 			w.other = true
 			return
 		}
-		if fc := e.P.Cs.Funcs[funcKey(callee)]; fc != nil && !fc.Inline && (len(fc.Modifies) > 0 || len(fc.Effects) > 0) {
-			w.other = true
-			return
+		if fc := e.P.Cs.Funcs[funcKey(callee)]; fc != nil && !fc.Inline {
+			if len(fc.Modifies) > 0 {
+				w.other = true
+				return
+			}
+			// a contract with ghost effects but no modifies clause: the heap effect is still the
+			// one inferred from the callee's body; only the ghost keys themselves are "other"
+			for _, cl := range fc.Effects {
+				if name, _ := splitWord(cl.Text); name == k {
+					w.other = true
+					return
+				}
+			}
 		}
 		translate(e.whoMemo[callee][k])
 	default:
